@@ -6,6 +6,7 @@ import (
 	"bytes"
 	"fmt"
 	"net"
+	rsync "sync"
 
 	"github.com/cbeuw/Cloak/internal/client"
 	"github.com/cbeuw/Cloak/internal/common"
@@ -49,6 +50,7 @@ func vWorld() common.WorldState { return common.WorldState{Rand: rand.Reader, No
 
 func newE2ERig(mgr usermanager.UserManager, bypass [][]byte, adminUID []byte) *e2eRig {
 	n := vnet.New()
+	redirAddrs = nil
 	r := &e2eRig{net: n, adminUID: adminUID}
 	r.srvL = n.Listen("server:443", false)
 	r.proxyL = n.Listen("proxy:8388", false)
@@ -84,7 +86,14 @@ func newE2ERig(mgr usermanager.UserManager, bypass [][]byte, adminUID []byte) *e
 // redirDialer sends every redirect to the listener "web:443", whatever address Cloak computed.
 type redirDialer struct{ d *vnet.Dialer }
 
+// redirAddrs records the addresses Cloak asked the redirect dialer for (cleared by newE2ERig).
+var redirAddrs []string
+var redirAddrsM rsync.Mutex // free-running scenarios redirect from several goroutines
+
 func (r redirDialer) Dial(network, address string) (net.Conn, error) {
+	redirAddrsM.Lock()
+	redirAddrs = append(redirAddrs, address)
+	redirAddrsM.Unlock()
 	return r.d.Dial("tcp", "web:443")
 }
 
